@@ -102,7 +102,8 @@ def run(repo, rep, tier):
 
     # ---- R4 / R1 ----------------------------------------------------------
     creates = []
-    for n in walk_no_nested(start.node):
+    start_f = Flat(start, aliases=False)
+    for n in walk_no_nested(start_f.node):
         if isinstance(n, ast.Assign) and isinstance(n.value, ast.Call):
             for k in n.value.keywords:
                 if k.arg == 'target' and norm(k.value) == 'self._callback_run':
@@ -117,9 +118,19 @@ def run(repo, rep, tier):
                     '(exactly one consumer keeps FIFO order)' % len(creates))
         return
     thread_field = norm(creates[0].targets[0])      # self._callback_thread
-    qassign = [n for n in walk_no_nested(start.node)
+    if isinstance(creates[0].targets[0], ast.Name):
+        # created into a local that is then stored in the field
+        for n in walk_no_nested(start_f.node):
+            if isinstance(n, ast.Assign) and len(n.targets) == 1 and \
+                    isinstance(n.value, ast.Name) and \
+                    n.value.id == thread_field and \
+                    (dotted(n.targets[0]) or '').startswith('self.'):
+                thread_field = norm(n.targets[0])
+    qassign = [n for n in walk_no_nested(start_f.node)
                if isinstance(n, ast.Assign) and
-               norm(n.targets[0]) == 'self._ind_queue']
+               norm(n.targets[0]) == 'self._ind_queue' and
+               not (isinstance(n.value, ast.Constant) and
+                    n.value.value is None)]
     ok = len(qassign) == 1 and isinstance(qassign[0].value, ast.Call) and \
         dotted(qassign[0].value.func) == 'queue.Queue'
     r4.ob(ok, 'fifo-queue', {'queue': norm(qassign[0], 100) if qassign
@@ -522,7 +533,7 @@ def run(repo, rep, tier):
                     'loop-shape', LS, run_cb.node.lineno, 'the consumer loop '
                     'is not get -> deliver -> task_done')
     # ---- R6 ---------------------------------------------------------------
-    started = {norm(t) for n in walk_no_nested(start.node)
+    started = {norm(t) for n in walk_no_nested(start_f.node)
                if isinstance(n, ast.Assign) for t in n.targets
                if (dotted(t) or '').startswith('self._') and
                not (isinstance(n.value, ast.Constant) and
